@@ -21,7 +21,7 @@ case "$PLACE" in
   *.go) mkdir -p $(dirname $PLACE); cp $D/$DEMO $PLACE;;
   *) mkdir -p $PLACE; cp $D/$DEMO $PLACE/;;
 esac
-RUN=$(echo "$RUN" | sed "s#/tmp/wt2\?/C[0-9]*#$W#g")
+RUN=$(echo "$RUN" | sed "s#/tmp/wt2\?/C[0-9]*#$W#g; s#<worktree>#$W#g")
 echo "-- demo on unchanged tree"
 ( eval "$RUN" ) > /tmp/confirm1.log 2>&1; r1=$?
 tail -3 /tmp/confirm1.log
